@@ -100,6 +100,22 @@ def gen_cubes(tier, seed):
             pixels.append(xs)
         api = rng.choice(["yxt", "grp", "grp", "accessor"])
         cubes.append((pixels, nd, 0, sp, api, "int16", f"lowvar-sweep cv={cv}"))
+    # other integer widths through the accessor (always present, not left to chance): unsigned 16-bit rainfall with wet outliers
+    # above the int16 range, 32-bit totals, 8-bit counts
+    for dtype, hi, outl in (("uint16", 400, [32768, 40000, 55537, 60000, 65000]), ("int32", 400, [40000, 70000, 2_000_000]), ("uint8", 60, [200, 250, 254])):
+        for rep_ in range(1 if quick else 4):
+            T = rng.choice([12, 24, 36])
+            nd = {"uint16": 9999, "int32": -9999, "uint8": 255}[dtype]
+            pixels = []
+            for k in range(3):
+                xs = [float(v) for v in rs.randint(1, hi, T)]
+                xs[rng.randrange(T)] = 0.0
+                for o in rng.sample(outl, 2 if k < 2 else 0):
+                    xs[rng.randrange(T)] = float(o)
+                if k == 1:
+                    xs[rng.randrange(T)] = float(nd)
+                pixels.append(xs)
+            cubes.append((pixels, nd, 0, T, "accessor", dtype, f"{dtype}-outliers"))
     return cubes
 
 
